@@ -232,6 +232,24 @@ var backends = []backend{
 	}},
 }
 
+// further seeds, tried only in the second round (few undecided obligations left)
+var moreBackends = func() []backend {
+	var out []backend
+	for _, sd := range []int{1, 2, 3, 4, 9, 13} {
+		sd := sd
+		out = append(out, backend{fmt.Sprintf("z3-4.8.12/seed%d", sd), func(f string, t int) []string {
+			return []string{"/usr/bin/z3", fmt.Sprintf("-T:%d", t), fmt.Sprintf("smt.random_seed=%d", sd), f}
+		}})
+	}
+	for _, sd := range []int{11, 21} {
+		sd := sd
+		out = append(out, backend{fmt.Sprintf("z3-5.1.0/seed%d", sd), func(f string, t int) []string {
+			return []string{"z3-new", fmt.Sprintf("-T:%d", t), fmt.Sprintf("smt.random_seed=%d", sd), fmt.Sprintf("sat.random_seed=%d", sd), f}
+		}})
+	}
+	return out
+}()
+
 // procSlots bounds the number of solver processes running at once by the number of cores: a solver's time
 // limit is wall-clock time, which is only meaningful when the process has a core to itself (the races of
 // several obligations would otherwise starve each other and turn slow-but-provable goals into timeouts)
@@ -307,9 +325,14 @@ func solveOnce(query string, dir, name string, timeoutS int, quickFirst bool) So
 	}
 	ctx, cancel := context.WithCancel(context.Background())
 	defer cancel()
-	ch := make(chan SolverResult, len(backends))
+	bs := backends
+	if !quickFirst {
+		// second round: the wider portfolio
+		bs = append(append([]backend{}, backends...), moreBackends...)
+	}
+	ch := make(chan SolverResult, len(bs))
 	var wg sync.WaitGroup
-	for _, b := range backends {
+	for _, b := range bs {
 		wg.Add(1)
 		go func(b backend) {
 			defer wg.Done()
